@@ -359,6 +359,11 @@ CORPUS = [
              ('feed', L.frame(9, [mode_cmd(1, 10, 52, NAN, L.bits_of(99.0))]))],
     lambda: [('feed', L.frame(5, [L.u16(1) + L.u16(1) + L.u32(6) + L.u16(2)]))],
     lambda: [('feed', L.frame(5, []))],
+    # boundary values of the message counter, first on a fresh system and repeated (seeded change C14-r5m1:
+    # a 'previous counter' that never existed) and of the per-command counter
+    lambda: [('feed', L.frame(0, [mode_cmd(1, 6, 2)])), ('feed', L.frame(1, [mode_cmd(2, 7, 2)]))],
+    lambda: [('feed', L.frame(0, [mode_cmd(2, 0, 2)])), ('feed', L.frame(0, [mode_cmd(1, 7, 2)])),
+             ('feed', L.frame(2 ** 32 - 1, [mode_cmd(1, 2 ** 32 - 1, 2)])), ('feed', L.frame(2 ** 31, [mode_cmd(1, 0, 1)]))],
     lambda: [('feed', L.frame(5, [mode_cmd(2, 6, 51)])), ('feed', L.frame(7, [mode_cmd(2, 8, 2)])),
              ('feed', L.frame(9, [mode_cmd(2, 10, 3, L.bits_of(45.0), L.bits_of(0.5))])),
              ('feed', L.frame(11, [mode_cmd(2, 12, 52, 0, L.bits_of(0.25))])),
@@ -538,6 +543,11 @@ def examine(A, T, ops, report):
     """run a history on a fresh System and check every statement of C14 at every message;
     report(klass, what, **details) is called for each failure"""
     s = L.new_system(A)
+    # the previous message counter as the statement defines it (none on a fresh system; the counter of the last
+    # message whose header was read), tracked here while every message so far arrived at an idle parser with a
+    # complete start flag -- independently of the attribute the implementation keeps (seeded change C14-r5m1)
+    own_prev, own_known = None, True
+    start_flag = bytes(T['start_flag'])
     for k, op in enumerate(ops):
         if op[0] == 'poke':
             L.poke(s, op[1], op[2], op[3])
@@ -547,7 +557,17 @@ def examine(A, T, ops, report):
             continue
         data = bytes(op[1])
         idle_before = (s.msg == '')
-        prev = s.cmd_counter
+        prev = own_prev if own_known else s.cmd_counter
+        if own_known and idle_before and data[:4] == start_flag and len(data) >= 12 \
+                and struct.unpack('<I', data[4:8])[0] >= 20:
+            c12 = struct.unpack('<I', data[8:12])[0]
+            if c12 != own_prev:
+                own_prev = c12
+            if start_flag[:1] in data[struct.unpack('<I', data[4:8])[0]:]:
+                own_known = False   # bytes after the declared length could open another frame
+        elif not (idle_before and len(data) >= 8 and data[:4] == start_flag
+                  and struct.unpack('<I', data[4:8])[0] < 20 and start_flag[:1] not in data[8:]):
+            own_known = False       # framing not certain any more: fall back to the implementation's own record
         before = dict(AZ=L.axis_snapshot(s.AZ), EL=L.axis_snapshot(s.EL), PS=L.ps_snapshot(s.PS))
         outs = L.feed(s, data)
         ev = L.take_events()
